@@ -58,22 +58,23 @@ type Verifier struct {
 
 	obligations []*Obligation
 	// assumption scan
-	opaqueCalls  map[string]map[string]int // function -> callee key -> count
-	usedLibSpecs map[string]bool
-	inlined      map[string]bool
-	notes        map[string]bool
-	engineErrors []string
-	funcsDone    []string
-	typeTags     map[string]int64
-	srcLines     map[string][]string
-	ufs          map[string]*ufDef
-	taggedAxioms []Clause
-	taggedTerms  map[int]*Term
-	funcCtxs     map[string]*FuncCtx
-	known        map[string]KnownFinding
-	knownSplit   map[string]string
-	sameAsCache  map[string]*FuncSpec
-	sameAsUsed   map[string]string // interface method key -> implementation key whose contract is used
+	opaqueCalls    map[string]map[string]int // function -> callee key -> count
+	usedLibSpecs   map[string]bool
+	inlined        map[string]bool
+	notes          map[string]bool
+	engineErrors   []string
+	funcsDone      []string
+	typeTags       map[string]int64
+	srcLines       map[string][]string
+	ufs            map[string]*ufDef
+	taggedAxioms   []Clause
+	pendingExtends []pendingExtend
+	taggedTerms    map[int]*Term
+	funcCtxs       map[string]*FuncCtx
+	known          map[string]KnownFinding
+	knownSplit     map[string]string
+	sameAsCache    map[string]*FuncSpec
+	sameAsUsed     map[string]string // interface method key -> implementation key whose contract is used
 	// interior pointers used as values (interior.go)
 	heapTypes       map[string]types.Type // heap key -> pointee Go type
 	interiorKinds   map[string]int64
@@ -538,33 +539,14 @@ func (v *Verifier) LoadSpecFile(path string, pkgPath string, lib bool) error {
 				if lib {
 					continue // the extended dependency is not specified in this configuration
 				}
-				return fmt.Errorf("%s:%d: extend func %s: no contract to extend", path, f.Line, f.Key)
+				// contract files are read in file-name order: the contract being extended may live in a file of another tag that
+				// sorts later (zz_contracts_c05ks_verif.go extends zz_contracts_c19_verif.go) - retry once all files are read
+				v.pendingExtends = append(v.pendingExtends, pendingExtend{f: f, path: path})
+				continue
 			}
-			if len(f.ParamNames) > 0 || f.Pure || f.Def != nil || f.Trusted || f.Inline || f.Opaque || f.Fresh {
-				return fmt.Errorf("%s:%d: extend func %s: only requires / ensures / modifies / let / call / loop / allow clauses can be added", path, f.Line, f.Key)
+			if err := v.applyExtend(f, prev, path); err != nil {
+				return err
 			}
-			if prev.Pure || prev.Def != nil {
-				return fmt.Errorf("%s:%d: extend func %s: a pure / defined function cannot be extended", path, f.Line, f.Key)
-			}
-			prev.Requires = append(prev.Requires, f.Requires...)
-			prev.Ensures = append(prev.Ensures, f.Ensures...)
-			prev.Modifies = append(prev.Modifies, f.Modifies...)
-			prev.Lets = append(prev.Lets, f.Lets...)
-			prev.Ghosts = append(prev.Ghosts, f.Ghosts...)
-			prev.Uses = append(prev.Uses, f.Uses...)
-			for k, cl := range f.LoopInv {
-				prev.LoopInv[k] = append(prev.LoopInv[k], cl...)
-			}
-			for k, cl := range f.LoopUse {
-				prev.LoopUse[k] = append(prev.LoopUse[k], cl...)
-			}
-			for k, cl := range f.CallReq {
-				prev.CallReq[k] = append(prev.CallReq[k], cl...)
-			}
-			for k := range f.Allow {
-				prev.Allow[k] = true
-			}
-			v.notes[fmt.Sprintf("contract of %s (%s) extended in %s", f.Key, prev.File, path)] = true
 			continue
 		}
 		if prev, dup := v.specs[f.Key]; dup {
@@ -770,4 +752,67 @@ func (v *Verifier) clauseSelected(label string) bool {
 		}
 	}
 	return false
+}
+
+// pendingExtend is an `extend func` clause of a contract file read before the file that holds the contract it extends.
+type pendingExtend struct {
+	f    *FuncSpec
+	path string
+}
+
+// ApplyPendingExtends applies the `extend func` clauses that were read before their base contract (after all contract files are loaded).
+func (v *Verifier) ApplyPendingExtends() error {
+	for _, pe := range v.pendingExtends {
+		prev, ok := v.specs[pe.f.Key]
+		if !ok {
+			return fmt.Errorf("%s:%d: extend func %s: no contract to extend", pe.path, pe.f.Line, pe.f.Key)
+		}
+		if err := v.applyExtend(pe.f, prev, pe.path); err != nil {
+			return err
+		}
+	}
+	v.pendingExtends = nil
+	return nil
+}
+
+func (v *Verifier) applyExtend(f, prev *FuncSpec, path string) error {
+	if len(f.ParamNames) > 0 || f.Pure || f.Def != nil || f.Trusted || f.Inline || f.Opaque || f.Fresh {
+		return fmt.Errorf("%s:%d: extend func %s: only requires / ensures / modifies / let / call / loop / allow clauses can be added", path, f.Line, f.Key)
+	}
+	if prev.Pure || prev.Def != nil {
+		return fmt.Errorf("%s:%d: extend func %s: a pure / defined function cannot be extended", path, f.Line, f.Key)
+	}
+	prev.Requires = append(prev.Requires, f.Requires...)
+	prev.Ensures = append(prev.Ensures, f.Ensures...)
+	prev.Modifies = append(prev.Modifies, f.Modifies...)
+	prev.Lets = append(prev.Lets, f.Lets...)
+	prev.Ghosts = append(prev.Ghosts, f.Ghosts...)
+	prev.Uses = append(prev.Uses, f.Uses...)
+	for k, cl := range f.LoopInv {
+		prev.LoopInv[k] = append(prev.LoopInv[k], cl...)
+	}
+	for k, cl := range f.LoopUse {
+		prev.LoopUse[k] = append(prev.LoopUse[k], cl...)
+	}
+	for k, cl := range f.CallReq {
+		prev.CallReq[k] = append(prev.CallReq[k], cl...)
+	}
+	for k := range f.Allow {
+		prev.Allow[k] = true
+	}
+	// `call VAR contract KEY` and `rawslice` clauses of the extension (before: parsed but dropped)
+	for k, t := range f.CallSpec {
+		if prev.CallSpec == nil {
+			prev.CallSpec = map[string]string{}
+		}
+		prev.CallSpec[k] = t
+	}
+	for k := range f.RawSlice {
+		if prev.RawSlice == nil {
+			prev.RawSlice = map[string]bool{}
+		}
+		prev.RawSlice[k] = true
+	}
+	v.notes[fmt.Sprintf("contract of %s (%s) extended in %s", f.Key, prev.File, path)] = true
+	return nil
 }
